@@ -1923,6 +1923,8 @@ fn gen_install(rng: &mut Rng, info: &FontInfo, prop: &str) -> Option<(FontInfo, 
                 1 => n,
                 _ => 1 + rng.below(u64::from(n)) as u16,
             },
+            over: matches!(prop, "C03" | "C01") && rng.pct(15),
+            vvar: info.axes > 0 && rng.pct(60),
         });
     }
     let p_many = match prop {
